@@ -69,6 +69,14 @@ impl RandomPolicy {
     }
 }
 
+#[cfg(memcrs_verif)]
+impl RandomPolicy {
+    /// verification hook: the accounted memory usage
+    pub fn verif_usage(&self) -> u64 {
+        self.memory_usage.load(atomic::Ordering::SeqCst)
+    }
+}
+
 impl CacheImplDetails for RandomPolicy {
     //
     fn get_by_key(&self, key: &KeyType) -> Result<Record> {
